@@ -108,6 +108,7 @@ class Scenario:
         self.next_cb = 0
         self.pending_frames = []  # rest of a multi-frame client packet
         self.max_t = profile.get('max_transports', 4)
+        self.gone = []            # session ids that were connected once
 
     # ---- learn from what the server sent
     def learn(self, op, obs):
@@ -202,7 +203,9 @@ class Scenario:
             return None
         t, ns = rng.choice(cands)
         ev = rng.choice(EVENTS) if rng.random() < 0.85 else G.gen_event_name(rng)
-        if ev in ('connect', 'disconnect', '*'):
+        if rng.random() < 0.04:
+            ev = '*'                  # an event literally named like the catch-all key
+        if ev in ('connect', 'disconnect'):
             ev = 'msg'
         args = [G.gen_value(rng, 2, self.profile.get('bytes_p', 0.2)) for _ in range(rng.randint(0, 3))]
         pid = rng.choice([None, None, 0, 1, 7, rng.randint(0, 10**6), 10**30])
@@ -317,10 +320,13 @@ class Scenario:
         return {'op': 'enter', 'sid': sid, 'ns': ns, 'room': room}
 
     def g_leave(self):
-        if not self.conn:
-            return None
-        (t, ns), sid = self.rng.choice(list(self.conn.items()))
-        return {'op': 'leave', 'sid': sid, 'ns': ns, 'room': self.rng.choice(ROOMS)}
+        rng = self.rng
+        if not self.conn or rng.random() < 0.25:
+            # leaving a room never entered / on a namespace nobody is connected to / with a stale or unknown sid
+            sid = rng.choice(self.sids() + self.gone + ['nobody'])
+            return {'op': 'leave', 'sid': sid, 'ns': rng.choice(NS_POOL), 'room': rng.choice(ROOMS)}
+        (t, ns), sid = rng.choice(list(self.conn.items()))
+        return {'op': 'leave', 'sid': sid, 'ns': ns, 'room': rng.choice(ROOMS)}
 
     def g_close(self):
         return {'op': 'close', 'ns': self.rng.choice(NS_POOL), 'room': self.rng.choice(ROOMS + ['nope'])}
